@@ -482,3 +482,277 @@ Proof.
     [|split; reflexivity|reflexivity].
   reflexivity.
 Qed.
+
+(** ** The same at the level of BYTES: a comment stripper for ShExC text.
+
+    [code_lines t] is defined on the raw text, without reference to the model: the text is cut
+    at newlines; in every line the comment starts at the first ['#'] that is not inside an
+    IRI reference [<...>] (IRIs may contain '#'); what precedes it, with trailing blanks
+    removed, is the code of the line; a line that holds nothing but a comment disappears.
+
+    [scannable sl] (decidable, on the rendered document) says that this reading recovers the
+    structure: no token contains a newline or a '#' outside [<...>], every [<] is closed on
+    its line, comment segments start with '#'.  It is a PREMISE of the byte-level theorems
+    (evaluated on the examples), not derived from the graph. *)
+Definition nl_char : ascii := ascii_of_nat 10.
+Definition is_sp (c : ascii) : bool := Ascii.eqb c " "%char.
+
+Fixpoint lines_of (t : str) : list str :=
+  match t with
+  | [] => [[]]
+  | c :: t' =>
+    if Ascii.eqb c nl_char then [] :: lines_of t'
+    else match lines_of t' with
+         | l :: ls => (c :: l) :: ls
+         | [] => [[c]]
+         end
+  end.
+
+(** (code before the comment, whether a comment was found) *)
+Fixpoint cut_comment (in_iri : bool) (s : str) : str * bool :=
+  match s with
+  | [] => ([], false)
+  | c :: s' =>
+    if Ascii.eqb c "#"%char && negb in_iri then ([], true)
+    else let r := cut_comment (if Ascii.eqb c "<"%char then true
+                               else if Ascii.eqb c ">"%char then false else in_iri) s' in
+         (c :: fst r, snd r)
+  end.
+
+Fixpoint rstrip_sp (s : str) : str :=
+  match s with
+  | [] => []
+  | c :: s' => match rstrip_sp s' with
+               | [] => if is_sp c then [] else [c]
+               | r => c :: r
+               end
+  end.
+
+Definition is_nil {A} (l : list A) : bool := match l with [] => true | _ => false end.
+
+Definition code_of_line (line : str) : option str :=
+  let r := cut_comment false line in
+  let code := rstrip_sp (fst r) in
+  if snd r && is_nil code then None else Some code.
+
+Fixpoint omap {A B} (f : A -> option B) (l : list A) : list B :=
+  match l with
+  | [] => []
+  | x :: l' => match f x with Some y => y :: omap f l' | None => omap f l' end
+  end.
+
+Definition code_lines (t : str) : list str := omap code_of_line (lines_of t).
+
+(** *** the premise *)
+Definition no_nl (s : str) : bool := forallb (fun c => negb (Ascii.eqb c nl_char)) s.
+
+(** the IRI state after a string without bare '#'; [None] if there is one *)
+Fixpoint scan (in_iri : bool) (s : str) : option bool :=
+  match s with
+  | [] => Some in_iri
+  | c :: s' =>
+    if Ascii.eqb c "#"%char && negb in_iri then None
+    else scan (if Ascii.eqb c "<"%char then true else if Ascii.eqb c ">"%char then false else in_iri) s'
+  end.
+
+Fixpoint skip_sp (s : str) : str :=
+  match s with
+  | c :: s' => if is_sp c then skip_sp s' else s
+  | [] => []
+  end.
+
+Definition starts_hash (s : str) : bool :=
+  match skip_sp s with c :: _ => Ascii.eqb c "#"%char | [] => false end.
+
+Definition clean_code (c : str) : bool :=
+  no_nl c && match scan false c with Some false => true | _ => false end.
+
+Definition line_dom (l : sline) : bool :=
+  match l with
+  | LCode c t => clean_code c && no_nl t &&
+                 (is_nil t || (starts_hash t && negb (is_nil (rstrip_sp c))))
+  | LNote t => no_nl t && starts_hash t
+  end.
+
+Definition scannable (sl : list sline) : bool := forallb line_dom sl.
+
+(** *** lemmas *)
+Definition body (l : sline) : str := match l with LCode c t => c ++ t | LNote t => t end.
+
+Lemma flat_body l : flat l = body l ++ nl.
+Proof. destruct l; cbn [flat body]; [now rewrite app_assoc | reflexivity]. Qed.
+
+Lemma lines_of_line l t : no_nl l = true -> lines_of (l ++ nl ++ t) = l :: lines_of t.
+Proof.
+  induction l as [|c l IH]; intros H.
+  - reflexivity.
+  - unfold no_nl in H, IH. cbn [forallb] in H. apply andb_true_iff in H as [Hc Hl]. cbn [app lines_of].
+    apply negb_true_iff in Hc. rewrite Hc, (IH Hl). reflexivity.
+Qed.
+
+Lemma no_nl_app a b : no_nl (a ++ b) = no_nl a && no_nl b.
+Proof. apply forallb_app. Qed.
+
+Lemma cut_comment_app c : forall b b' rest,
+  scan b c = Some b' ->
+  cut_comment b (c ++ rest) = (c ++ fst (cut_comment b' rest), snd (cut_comment b' rest)).
+Proof.
+  induction c as [|x c IH]; intros b b' rest H.
+  - cbn in H. inversion H; subst. cbn [app]. now destruct (cut_comment b' rest).
+  - cbn [scan] in H. cbn [app cut_comment].
+    destruct (Ascii.eqb x "#"%char && negb b); [discriminate|].
+    rewrite (IH _ _ rest H). reflexivity.
+Qed.
+
+Lemma cut_comment_trail t :
+  starts_hash t = true ->
+  exists sp, cut_comment false t = (sp, true) /\ forallb is_sp sp = true.
+Proof.
+  unfold starts_hash. induction t as [|c t IH]; [discriminate|].
+  cbn [skip_sp]. destruct (is_sp c) eqn:E.
+  - intros H. destruct (IH H) as (sp & H1 & H2).
+    unfold is_sp in E. apply Ascii.eqb_eq in E. subst c.
+    exists (" "%char :: sp). cbn [cut_comment]. cbn [Ascii.eqb Bool.eqb andb].
+    rewrite H1. split; [reflexivity|]. cbn. exact H2.
+  - intros H. exists []. cbn [cut_comment]. rewrite H. split; reflexivity.
+Qed.
+
+Lemma rstrip_sp_blank sp : forallb is_sp sp = true -> rstrip_sp sp = [].
+Proof.
+  induction sp as [|c sp IH]; [reflexivity|]. cbn. intros H. apply andb_true_iff in H as [H1 H2].
+  now rewrite (IH H2), H1.
+Qed.
+
+Lemma rstrip_sp_app c sp : forallb is_sp sp = true -> rstrip_sp (c ++ sp) = rstrip_sp c.
+Proof.
+  intros H. induction c as [|x c IH]; [now apply rstrip_sp_blank|].
+  cbn [app rstrip_sp]. now rewrite IH.
+Qed.
+
+Definition line_code (l : sline) : str := match l with LCode c _ => rstrip_sp c | LNote _ => [] end.
+
+Lemma code_of_line_dom l :
+  line_dom l = true ->
+  code_of_line (body l) = match l with LCode c _ => Some (rstrip_sp c) | LNote _ => None end.
+Proof.
+  destruct l as [c t|t]; cbn [line_dom body]; intros H.
+  - apply andb_true_iff in H as [H Ht]. apply andb_true_iff in H as [Hc _].
+    unfold clean_code in Hc. apply andb_true_iff in Hc as [_ Hs].
+    destruct (scan false c) as [[|]|] eqn:Es; try discriminate.
+    unfold code_of_line. rewrite (cut_comment_app c false false t Es). cbn [fst snd].
+    apply orb_true_iff in Ht as [Ht|Ht].
+    + destruct t; [|discriminate]. cbn [cut_comment fst snd andb]. now rewrite app_nil_r.
+    + apply andb_true_iff in Ht as [Hh Hne].
+      destruct (cut_comment_trail t Hh) as (sp & E & Hsp). rewrite E. cbn [fst snd].
+      rewrite (rstrip_sp_app c sp Hsp). destruct (rstrip_sp c); [discriminate|reflexivity].
+  - apply andb_true_iff in H as [_ Hh].
+    destruct (cut_comment_trail t Hh) as (sp & E & Hsp).
+    unfold code_of_line. rewrite E. cbn [fst snd]. now rewrite (rstrip_sp_blank sp Hsp).
+Qed.
+
+Lemma line_dom_no_nl l : line_dom l = true -> no_nl (body l) = true.
+Proof.
+  destruct l as [c t|t]; cbn [line_dom body]; intros H.
+  - apply andb_true_iff in H as [H _]. apply andb_true_iff in H as [Hc Ht].
+    unfold clean_code in Hc. apply andb_true_iff in Hc as [Hc _]. now rewrite no_nl_app, Hc, Ht.
+  - now apply andb_true_iff in H as [H _].
+Qed.
+
+(** the comment stripper reads a scannable document as its structure says *)
+Theorem code_lines_flat sl :
+  scannable sl = true ->
+  code_lines (flat_text sl) = map line_code (uncomment sl) ++ [[]].
+Proof.
+  unfold code_lines, flat_text, scannable. induction sl as [|l sl IH]; intros H.
+  - reflexivity.
+  - cbn [forallb] in H. apply andb_true_iff in H as [Hl Hsl].
+    cbn [map List.concat]. rewrite flat_body, <- app_assoc.
+    rewrite (lines_of_line (body l) _ (line_dom_no_nl l Hl)). cbn [omap].
+    rewrite (code_of_line_dom l Hl), (IH Hsl).
+    destruct l; reflexivity.
+Qed.
+
+Lemma scannable_uncomment sl : scannable sl = true -> scannable (uncomment sl) = true.
+Proof.
+  unfold scannable. induction sl as [|l sl IH]; [reflexivity|]. cbn [forallb]. intros H.
+  apply andb_true_iff in H as [Hl Hsl]. unfold uncomment in *. cbn [flat_map].
+  rewrite forallb_app, (IH Hsl), andb_true_r.
+  destruct l as [c t|t]; [|reflexivity]. cbn [uncomment_line forallb line_dom] in *.
+  apply andb_true_iff in Hl as [Hl _]. apply andb_true_iff in Hl as [Hc _].
+  now rewrite Hc.
+Qed.
+
+Lemma uncomment_idem sl : uncomment (uncomment sl) = uncomment sl.
+Proof.
+  unfold uncomment. induction sl as [|l sl IH]; [reflexivity|].
+  cbn [flat_map]. rewrite flat_map_app, IH. destruct l; reflexivity.
+Qed.
+
+(** removing the comments of the structured document = stripping the comments of the text *)
+Corollary code_lines_uncomment sl :
+  scannable sl = true -> code_lines (flat_text (uncomment sl)) = code_lines (flat_text sl).
+Proof.
+  intros H. rewrite (code_lines_flat sl H), (code_lines_flat _ (scannable_uncomment sl H)).
+  now rewrite uncomment_idem.
+Qed.
+
+(** *** B2, bytes: the text rendered with [disable_comments] and the text rendered with
+    comments have the same code lines *)
+Theorem text_code_lines_disable_comments z z' l sl :
+  same_tokens z z' -> z_disable_comments z' = true ->
+  render_slines z l = Some sl -> scannable sl = true ->
+  exists t t', render z l = Some t /\ render z' (map_shapes drop_comments l) = Some t' /\
+               code_lines t' = code_lines t.
+Proof.
+  intros Ht Hd Hr Hs. destruct (text_disable_comments z z' l Ht Hd) as [H1 H2].
+  rewrite Hr in H1, H2. cbn [option_map] in H1, H2.
+  eexists _, _. split; [exact H2|]. split; [exact H1|]. now apply code_lines_uncomment.
+Qed.
+
+(** *** B1, bytes: two renderings of the same shapes with the same tokens (report modes and
+    [disable_comments] free) have the same code lines *)
+Theorem text_code_lines_same_tokens z1 z2 l sl1 sl2 :
+  same_tokens z1 z2 ->
+  render_slines z1 l = Some sl1 -> render_slines z2 l = Some sl2 ->
+  scannable sl1 = true -> scannable sl2 = true ->
+  code_lines (flat_text sl1) = code_lines (flat_text sl2).
+Proof.
+  intros Ht H1 H2 S1 S2.
+  rewrite (code_lines_flat sl1 S1), (code_lines_flat sl2 S2). do 2 f_equal.
+  set (z' := {| z_ns := z_ns z1; z_tau := z_tau z1; z_disable_comments := true; z_mode := FRatio |}).
+  pose proof (render_slines_disable_comments z1 z' l (conj eq_refl eq_refl) eq_refl) as E1.
+  assert (Ht2 : same_tokens z2 z') by (destruct Ht as [A B]; split; cbn; congruence).
+  pose proof (render_slines_disable_comments z2 z' l Ht2 eq_refl) as E2.
+  rewrite H1 in E1. rewrite H2 in E2. rewrite E1 in E2. cbn [option_map] in E2. now inversion E2.
+Qed.
+
+(** *** run level, bytes *)
+Theorem run_shexc_disable_comments_bytes fa c (thr : F fa) g sl :
+  run_slines fa (rwith_disable_comments false c) thr g = inl sl -> scannable sl = true ->
+  exists t t', run_shexc fa (rwith_disable_comments false c) thr g = inl t /\
+               run_shexc fa (rwith_disable_comments true c) thr g = inl t' /\
+               t = flat_text sl /\ t' = flat_text (uncomment sl) /\
+               code_lines t' = code_lines t.
+Proof.
+  intros Hr Hs. destruct (run_shexc_disable_comments fa c thr g) as [H1 H2].
+  rewrite Hr in H1, H2. cbn [map_res] in H1, H2.
+  eexists _, _. split; [exact H2|]. split; [exact H1|]. split; [reflexivity|]. split; [reflexivity|].
+  now apply code_lines_uncomment.
+Qed.
+
+Theorem run_shexc_report_mode_bytes fa m c (thr : F fa) g sl1 sl2 :
+  run_slines fa (with_mode m c) thr g = inl sl1 -> run_slines fa c thr g = inl sl2 ->
+  scannable sl1 = true -> scannable sl2 = true ->
+  exists t1 t2, run_shexc fa (with_mode m c) thr g = inl t1 /\ run_shexc fa c thr g = inl t2 /\
+                code_lines t1 = code_lines t2.
+Proof.
+  intros H1 H2 S1 S2. exists (flat_text sl1), (flat_text sl2).
+  rewrite !run_shexc_flat, H1, H2. split; [reflexivity|]. split; [reflexivity|].
+  unfold run_slines in H1, H2. rewrite O6_mode in H1.
+  destruct (run_shapes fa c thr g) as [[ns shapes]|e]; [|discriminate].
+  destruct (render_slines (sercfg_of (with_mode m c) ns) shapes) as [x1|] eqn:E1; [|discriminate].
+  destruct (render_slines (sercfg_of c ns) shapes) as [x2|] eqn:E2; [|discriminate].
+  inversion H1; inversion H2; subst x1 x2.
+  exact (text_code_lines_same_tokens (sercfg_of (with_mode m c) ns) (sercfg_of c ns) shapes sl1 sl2
+           (conj eq_refl eq_refl) E1 E2 S1 S2).
+Qed.
